@@ -320,6 +320,10 @@ Section Spec.
     if ltb O (s_data f i) zero then zero else div O (s_data f i) (at_ (noise f) i).
   Definition s_residual_flux_fraction (f : fit (T O)) (i : nat) : T O := div O (s_residual f i) (s_data f i).
 
+  (* an element-wise map of a fit: the default 0 in excluded pixels, [g i] elsewhere *)
+  Definition per_pixel (f : fit (T O)) (g : nat -> T O) : list (T O) :=
+    map (fun i => if excluded f i then zero else g i) (seq 0 (length (data f))).
+
   (* shapes under which the real code does not raise *)
   Definition fit_okb (f : fit (T O)) : bool :=
     Nat.eqb (length (noise f)) (length (data f)) && Nat.eqb (length (model f)) (length (data f)) &&
@@ -331,6 +335,7 @@ Section Spec.
     Nat.eqb (length (blocks iv)) (length (objs iv)) &&
     forallb (fun p => squareb (fst (fst p)) (snd p) || negb (snd (fst p))) (combine (objs iv) (blocks iv)) &&
     squareb (n_params (objs iv)) (curv iv) && Nat.eqb (length (recon iv)) (n_params (objs iv)).
+  Definition fit_inv_okb (f : fit (T O)) : bool := match inversion f with Some iv => inv_okb iv | None => true end.
   Definition noise_positiveb (f : fit (T O)) : bool := forallb (fun i => ltb O zero (at_ (noise f) i)) (fit_pixels f).
 End Spec.
 
